@@ -7,6 +7,8 @@ namespace hm {
 
 static World* g_world = nullptr;
 
+World* cur() { return g_world; }
+
 void RecTracer::trace(char const* file, unsigned long line, std::string const& call) {
   w->traces.push_back({idx, file ? file : "", line, call});
 }
